@@ -211,6 +211,13 @@ impl Runner {
     }
 
     pub fn start(&mut self, id: BuildId, build: &Build) {
+        #[cfg(feature = "verif")]
+        if crate::verif::active() {
+            use crate::densemap::Index;
+            crate::verif::with(|h| h.task_start(id.index()));
+            self.running += 1;
+            return;
+        }
         let cmdline = build.cmdline.clone().unwrap();
         let depfile = build.depfile.clone().map(PathBuf::from);
         let rspfile = build.rspfile.clone();
@@ -253,6 +260,21 @@ impl Runner {
 
     /// Wait for a build to complete.  May block for a long time.
     pub fn wait(&mut self, mut output: impl FnMut(BuildId, Vec<u8>)) -> FinishedTask {
+        #[cfg(feature = "verif")]
+        if let Some(fin) = crate::verif::with(|h| h.task_wait()) {
+            let now = Instant::now();
+            self.running -= 1;
+            return FinishedTask {
+                tid: 0,
+                buildid: BuildId::from(fin.build),
+                span: (now, now),
+                result: TaskResult {
+                    termination: crate::verif::sim_to_term(fin.termination),
+                    output: fin.output,
+                    discovered_deps: fin.discovered_deps,
+                },
+            };
+        }
         loop {
             match self.rx.recv().unwrap() {
                 Message::Output((bid, line)) => output(bid, line),
@@ -310,5 +332,19 @@ more text
     fn missing_depfile_allowed() {
         let deps = read_depfile(Path::new("/missing/dep/file")).unwrap();
         assert_eq!(deps.len(), 0);
+    }
+}
+
+/// Verification facades for the otherwise private helpers of this module.
+#[cfg(feature = "verif")]
+pub mod verif_facade {
+    pub fn read_depfile(path: &std::path::Path) -> anyhow::Result<Vec<String>> {
+        super::read_depfile(path)
+    }
+    pub fn extract_showincludes(output: Vec<u8>) -> (Vec<String>, Vec<u8>) {
+        super::extract_showincludes(output)
+    }
+    pub fn find_last_line(buf: &[u8]) -> &[u8] {
+        super::find_last_line(buf)
     }
 }
